@@ -10,7 +10,10 @@ package harness
 //   32-byte accounts: the alias of the EVM-side party (same last 20 bytes), the alias of
 //   another holder, an unrelated one - on the Cosmos side of each message}
 //   (transfers: to the erc20 module address, to a holder, to another module account, and an
-//   over-balance transfer), one operation on a prepared state per case.  The switch setting of
+//   over-balance transfer; the same through a FORWARDER - the multicall vault of c03_receipt.go
+//   is the callee, the token contract only emits the logs), module accounts converting TO
+//   THEMSELVES (sender = receiver = a blocked address, as in a governance proposal),
+//   one operation on a prepared state per case.  The switch setting of
 //   each prepared state is delivered by one of four routes (drawn per setting): MsgUpdateParams /
 //   legacy ParameterChangeProposal, each optionally followed by GHOST flips of all three
 //   switches to the opposite value on a branch that is thrown away.
@@ -26,7 +29,7 @@ import (
 
 func init() { runners["C14"] = c14Run }
 
-var c14FlipWeights = c03Weights{ConvertCoin: 18, ConvertERC20: 18, Transfer: 24, Burn: 3, BurnCoins: 2, BankSend: 3, Toggle: 10, SendEnabled: 8, Params: 14, Repair: 0.12}
+var c14FlipWeights = c03Weights{ConvertCoin: 18, ConvertERC20: 18, Transfer: 20, Burn: 3, BurnCoins: 2, BankSend: 3, Toggle: 10, SendEnabled: 8, Params: 14, Repair: 0.12, Receipt: 12}
 
 func c14Worlds() []*c14World {
 	units := []*big.Int{big.NewInt(1), new(big.Int).Exp(big.NewInt(10), big.NewInt(18), nil)}
@@ -34,6 +37,7 @@ func c14Worlds() []*c14World {
 	for i, u := range units {
 		w := c03NewWorld(i, 3, 1, 1, u)
 		w.c03Prelude(u)
+		w.c03AddContracts(u) // the multicall "vault" (a forwarder: its callee is not a token contract); module accounts exist
 		ws = append(ws, c14NewWorld(w, u))
 	}
 	return ws
@@ -80,6 +84,25 @@ func (w *c14World) c14GenOp(e *Env, parties []int, cur c03Obs) c14Op {
 			return w.longIdx(w.NHold) // unrelated
 		}
 	}
+	if (o.Kind == "convert_coin" || o.Kind == "convert_erc20") && e.Chance(0.10) {
+		// a module account (a blocked address) converts to itself
+		var mods []int
+		for _, p := range base {
+			if w.Parties[p].Module {
+				mods = append(mods, p)
+			}
+		}
+		if len(mods) > 0 {
+			m := mods[e.Pick(len(mods))]
+			o.From, o.To = m, m
+			bal := cur.Pairs[o.Pair].CBal[pos[m]]
+			if o.Kind == "convert_erc20" {
+				bal = cur.Pairs[o.Pair].TBal[pos[m]]
+			}
+			o.Amt = c03Amount(e, bal).String()
+			return o
+		}
+	}
 	switch o.Kind {
 	case "params":
 		if e.Chance(0.4) {
@@ -110,7 +133,7 @@ func c14Nontrivial(e *Env, sig string) {
 }
 
 func c14Run(e *Env) {
-	e.Stats.Rule = "part A, EXHAUSTIVE in every tier: the complete cross product {EnableErc20} x {EnableEVMHook} x {pair.Enabled} x {bank send-enabled of the denomination} (16 settings) x {module-owned pair, external pair} x {MsgConvertCoin, MsgConvertERC20 to each receiver in {self, third party, every one of the application's module accounts}, and with a 32-byte account on the Cosmos side (sender of MsgConvertCoin, receiver of MsgConvertERC20): the alias of the EVM-side party (same last 20 bytes), the alias of another holder, an unrelated one; ERC-20 transfer (real signed Ethereum tx, hooks run) to the erc20 module address, to a holder, to another module account, and above balance}; each case = one operation on the prepared state (state prepared once per setting, CacheContext per case); the setting is delivered (drawn per setting) by MsgUpdateParams or by a legacy ParameterChangeProposal, in half of the settings followed by ghost flips of all three switches to the opposite value on a discarded branch; projection of both pairs over all holders, all module accounts and the 32-byte accounts before and after, switches = the committed ones (parameter subspace and token-pair records read directly) | part B: random histories (20-30 operations) with switch flips (params by either route, toggle, send-enabled) in about a third of the steps, ghost flips in a tenth, 32-byte Cosmos-side parties in a third of the conversions between holders, same projection after every operation | Go-side monitors after every step: the switches the keeper reports are the committed ones; a ghost operation changes nothing observed; non-trivial = case containing a conversion attempt; distinct by hash of (setting, operation, result class)"
+	e.Stats.Rule = "part A, EXHAUSTIVE in every tier: the complete cross product {EnableErc20} x {EnableEVMHook} x {pair.Enabled} x {bank send-enabled of the denomination} (16 settings) x {module-owned pair, external pair} x {MsgConvertCoin, MsgConvertERC20 to each receiver in {self, third party, every one of the application's module accounts}, and with a 32-byte account on the Cosmos side (sender of MsgConvertCoin, receiver of MsgConvertERC20): the alias of the EVM-side party (same last 20 bytes), the alias of another holder, an unrelated one; a module account (gov = the signer of governance proposals, distribution, erc20 itself, csr; every module account owns coins and tokens of every pair) as sender AND receiver of both messages; ERC-20 transfer (real signed Ethereum tx, hooks run) to the erc20 module address, to a holder, to another module account, and above balance; the same route through a forwarder (real signed tx to the multicall vault of c03_receipt.go, which calls transfer / transferFrom on the token: the callee is NOT the token contract; one to three logs, also of the other pair) and a keeper-level receipt whose callee is the other pair's contract}; each case = one operation on the prepared state (state prepared once per setting, CacheContext per case); the setting is delivered (drawn per setting) by MsgUpdateParams or by a legacy ParameterChangeProposal, in half of the settings followed by ghost flips of all three switches to the opposite value on a discarded branch; projection of both pairs over all holders, all module accounts and the 32-byte accounts before and after, switches = the committed ones (parameter subspace and token-pair records read directly) | part B: random histories (20-30 operations) with switch flips (params by either route, toggle, send-enabled) in about a third of the steps, ghost flips in a tenth, 32-byte Cosmos-side parties in a third of the conversions between holders, a module account converting to itself in a tenth of the conversions, multi-log receipts (vault / keeper level) in a tenth of the steps, same projection after every operation | Go-side monitors after every step: the switches the keeper reports are the committed ones; a ghost operation changes nothing observed; non-trivial = case containing a conversion attempt; distinct by hash of (setting, operation, result class)"
 	ws := c14Worlds()
 	hdr := c03Header
 	for _, w := range ws {
@@ -137,6 +160,17 @@ func c14Run(e *Env) {
 	all := w.withLong(allBase)
 	const sender, third = 1, 2 // holder 1 converts; holder 0 is the deployer of the external contract
 	aliasS, aliasT, unrelated := w.longIdx(sender), w.longIdx(third), w.longIdx(w.NHold)
+	// module accounts that convert to themselves (sender = receiver = a blocked address): the signer of governance
+	// proposals, another well-known one, the erc20 module account itself, and an unrelated one
+	var selfMods []int
+	for _, name := range []string{"gov", "distribution", "erc20", "csr"} {
+		if i := w.c14Module(name); i >= 0 {
+			selfMods = append(selfMods, i)
+		} else {
+			e.Stats.Notes = append(e.Stats.Notes, "no module account named "+name)
+		}
+	}
+	vault := w.VaultIdx
 	bools := []bool{true, false}
 	nA := 0
 	if e.Tier != "search" {
@@ -189,6 +223,23 @@ func c14Run(e *Env) {
 									ops = append(ops, c14Op{Kind: kind, Pair: pair, From: sender, To: i, Amt: amt})
 								}
 							}
+							for _, m := range selfMods {
+								ops = append(ops, c14Op{Kind: "convert_coin", Pair: pair, From: m, To: m, Amt: "7"},
+									c14Op{Kind: "convert_erc20", Pair: pair, From: m, To: m, Amt: "5"})
+							}
+							// the EVM route through a forwarder: the callee of the transaction is the vault, the Transfer
+							// logs are emitted by the token contract(s) it calls; and a receipt whose first log (the
+							// callee, at keeper level) belongs to the OTHER pair
+							other := (pair + 1) % len(w.Pairs)
+							T := func(p, from, to int, amt string) c03Leg {
+								return c03Leg{Kind: "transfer", Pair: p, From: from, To: to, Amt: amt}
+							}
+							ops = append(ops,
+								c14Op{Kind: "receipt", Via: "vault", Pair: pair, From: sender, Legs: []c03Leg{T(pair, vault, w.ModIdx, "6")}},
+								c14Op{Kind: "receipt", Via: "vault", Pair: pair, From: sender, Legs: []c03Leg{T(pair, sender, w.ModIdx, "4")}},
+								c14Op{Kind: "receipt", Via: "vault", Pair: pair, From: third, Legs: []c03Leg{T(pair, sender, third, "2"), T(pair, vault, w.ModIdx, "3"), T(other, vault, w.ModIdx, "1"), T(pair, vault, third, "1")}},
+								c14Op{Kind: "receipt", Via: "keeper", Pair: pair, From: sender, Legs: []c03Leg{T(other, sender, third, "1"), T(pair, sender, w.ModIdx, "2")}},
+							)
 							ops = append(ops,
 								// 32-byte accounts on the Cosmos side
 								c14Op{Kind: "convert_erc20", Pair: pair, From: sender, To: aliasS, Amt: "5"},
